@@ -55,6 +55,20 @@ type caseT struct {
 	Base    string     `json:"base"`   // rec | grpc | inproc | http
 	Layers  []layerCfg `json:"layers"` // index 0 = innermost (wraps the base)
 	BaseErr bool       `json:"base_err"`
+	// Ctx: 0 = the caller's context stays live; 1 = already cancelled when the call is made (recording
+	// base only); 2 = cancelled by the innermost interceptor that is reached, just before it returns
+	// (recording base: both kinds; real bases: the unary call, which is complete by then).
+	Ctx int `json:"ctx,omitempty"`
+	// Re, when set, makes this a RE-ENTRANT case (see runReentrant); Layers is unused.
+	Re *reCase `json:"reentrant,omitempty"`
+}
+
+type reCase struct {
+	Inner int      `json:"inner"` // pass/pass interceptor layers between the base and the third-party wrapper (0 or 1)
+	Above int      `json:"above"` // interceptor layers above the wrapper (1 or 2)
+	Cfg   layerCfg `json:"cfg"`   // their configuration
+	K1    string   `json:"k1"`    // kind of the RPC made by the caller
+	K2    string   `json:"k2"`    // kind of the RPC issued from inside the wrapper's first Unwrap()
 }
 
 func (c caseT) pattern(kind string) string {
@@ -71,7 +85,14 @@ func (c caseT) pattern(kind string) string {
 }
 
 func (c caseT) String() string {
-	return fmt.Sprintf("base=%s depth=%d unary=%s stream=%s base_err=%v", c.Base, len(c.Layers), c.pattern("unary"), c.pattern("stream"), c.BaseErr)
+	if c.Re != nil {
+		return fmt.Sprintf("reentrant base=%s layers-beneath-wrapper=%d layers-above=%d (unary=%s stream=%s) rpc=%s, from inside Unwrap: %s", c.Base, c.Re.Inner, c.Re.Above, behNames[c.Re.Cfg.U], behNames[c.Re.Cfg.S], c.Re.K1, c.Re.K2)
+	}
+	s := fmt.Sprintf("base=%s depth=%d unary=%s stream=%s base_err=%v", c.Base, len(c.Layers), c.pattern("unary"), c.pattern("stream"), c.BaseErr)
+	if c.Ctx != 0 {
+		s += " ctx=" + []string{"live", "cancelled-before-the-call", "cancelled-by-innermost-interceptor-before-it-returns"}[c.Ctx]
+	}
+	return s
 }
 
 // ---------------------------------------------------------------- event log
@@ -95,6 +116,14 @@ type entry struct {
 type clog struct {
 	mu sync.Mutex
 	es []*entry
+	// hook of the current call: an interceptor of the given layer is about to return
+	beforeReturn func(layer int)
+}
+
+func (l *clog) returning(layer int) {
+	if l.beforeReturn != nil {
+		l.beforeReturn(layer)
+	}
 }
 
 func (l *clog) add(e *entry) *entry {
@@ -158,6 +187,7 @@ func mkUnary(l *clog, ls *layerState, b int) grpc.UnaryClientInterceptor {
 			e.gotErr = invoker(ctx, method, req, reply, cc, append(cp(opts), ls.optU)...)
 			e.retErr = e.gotErr
 		}
+		l.returning(ls.idx)
 		return e.retErr
 	}
 }
@@ -180,6 +210,7 @@ func mkStream(l *clog, ls *layerState, b int) grpc.StreamClientInterceptor {
 			e.gotStream, e.gotErr = streamer(ctx, desc, cc, method, append(cp(opts), ls.optS)...)
 			e.retStream, e.retErr = e.gotStream, e.gotErr
 		}
+		l.returning(ls.idx)
 		if e.retStream == nil { // a nil *fakeCS must not become a non-nil interface
 			return nil, e.retErr
 		}
@@ -194,7 +225,23 @@ const (
 	streamMethod = "/t.C/S"
 )
 
-var errBase = status.Error(codes.NotFound, "base error")
+// the base's failure: a status with details, nothing to do with contexts
+var errBase = func() error {
+	st, err := status.New(codes.NotFound, "base error").WithDetails(wrapperspb.String("base detail"))
+	if err != nil {
+		panic(err)
+	}
+	return st.Err()
+}()
+
+func isBaseError(err error) bool {
+	st, ok := status.FromError(err)
+	if !ok || err == nil || st.Code() != codes.NotFound || st.Message() != "base error" || len(st.Details()) != 1 {
+		return false
+	}
+	d, ok := st.Details()[0].(*wrapperspb.StringValue)
+	return ok && d.Value == "base detail"
+}
 
 // recBase is a recording stub: not a *grpc.ClientConn and not a wrapper.
 type recBase struct {
@@ -502,6 +549,28 @@ func runCase(c caseT, verbose bool) (probs []problem, observed string) {
 			states[i].hdrU, states[i].hdrS = nil, nil
 		}
 
+		// the context
+		ctx, cancel := context.WithCancel(context.Background())
+		l.beforeReturn = nil
+		switch c.Ctx {
+		case 1:
+			cancel()
+		case 2:
+			cancelLayer := 0
+			for _, w := range wantLog {
+				if w > 0 {
+					cancelLayer = w // the innermost interceptor reached
+				}
+			}
+			if cancelLayer > 0 && (c.Base == "rec" || kind == "unary") {
+				l.beforeReturn = func(layer int) {
+					if layer == cancelLayer {
+						cancel()
+					}
+				}
+			}
+		}
+
 		// the call
 		l.take()
 		req := wrapperspb.String("req")
@@ -513,10 +582,10 @@ func runCase(c caseT, verbose bool) (probs []problem, observed string) {
 		var msgs []string
 		var streamEnd error
 		if kind == "unary" {
-			err = ch.Invoke(context.Background(), method, req, resp, callerOpts...)
+			err = ch.Invoke(ctx, method, req, resp, callerOpts...)
 		} else {
 			method = streamMethod
-			cs, err = ch.NewStream(context.Background(), desc, method, callerOpts...)
+			cs, err = ch.NewStream(ctx, desc, method, callerOpts...)
 			if _, fake := cs.(*fakeCS); cs != nil && !fake && err == nil {
 				// a real stream: drive it to completion
 				if e := cs.SendMsg(req); e != nil && e != io.EOF {
@@ -534,6 +603,8 @@ func runCase(c caseT, verbose bool) (probs []problem, observed string) {
 				}
 			}
 		}
+		l.beforeReturn = nil
+		defer cancel()
 		es := l.take()
 		got := layersOf(es)
 		o := fmt.Sprintf("%s: log(layer; 0=base)=%v err=%v", kind, got, err)
@@ -639,8 +710,8 @@ func runCase(c caseT, verbose bool) (probs []problem, observed string) {
 			}
 		}
 		if c.BaseErr {
-			if st, _ := status.FromError(final); final == nil || st.Code() != codes.NotFound || st.Message() != "base error" {
-				add("caller-result", kind, fmt.Sprintf("%s call: server failed with NotFound \"base error\", caller got %v", kind, final))
+			if !isBaseError(final) {
+				add("caller-result", kind, fmt.Sprintf("%s call: server failed with NotFound \"base error\" + 1 detail, caller got %v", kind, final))
 			}
 			continue
 		}
@@ -668,6 +739,199 @@ func runCase(c caseT, verbose bool) (probs []problem, observed string) {
 	return probs, strings.Join(obs, "; ")
 }
 
+// ---------------------------------------------------------------- re-entrant case
+
+// gate is a third-party style wrapper (it implements grpchan.WrappedClientConn but is not one of
+// intercept.go's). The first time it is asked to Unwrap after being armed, it issues another RPC
+// through the outermost channel -- on the same goroutine, so the case is deterministic.
+type gate struct {
+	grpc.ClientConnInterface
+	armed, fired bool
+	unwraps      int
+	onFirst      func()
+}
+
+func (g *gate) Unwrap() grpc.ClientConnInterface {
+	g.unwraps++
+	if g.armed && !g.fired {
+		g.fired = true
+		g.onFirst()
+	}
+	return g.ClientConnInterface
+}
+
+var reentries int
+
+func runReentrant(c caseT, verbose bool) (probs []problem, observed string) {
+	atomic.AddInt64(&progress, 1)
+	current.Store(c.String())
+	add := func(clause, sub, what string) { probs = append(probs, problem{clause, sub, what}) }
+	defer func() {
+		if r := recover(); r != nil {
+			add("panic", "", fmt.Sprintf("library code panicked: %v", r))
+		}
+	}()
+	re := c.Re
+	l := &clog{}
+	cur.Store(&curT{l: l})
+	var base grpc.ClientConnInterface
+	var wantCC *grpc.ClientConn
+	recStream := &fakeCS{tag: "stream of the recording base"}
+	switch c.Base {
+	case "rec":
+		base = &recBase{l: l, stream: recStream}
+	case "grpc":
+		base, wantCC = realCC, realCC
+	case "inproc":
+		base = inprocCh
+	case "http":
+		base = httpCh
+	default:
+		panic("bad base")
+	}
+	ch := base
+	idx := 0
+	mk := func(cfg layerCfg) {
+		idx++
+		ls := &layerState{idx: idx}
+		ch = grpchan.InterceptClientConn(ch, mkUnary(l, ls, cfg.U), mkStream(l, ls, cfg.S))
+	}
+	for i := 0; i < re.Inner; i++ {
+		mk(layerCfg{bPass, bPass})
+	}
+	g := &gate{ClientConnInterface: ch}
+	ch = g
+	for i := 0; i < re.Above; i++ {
+		mk(re.Cfg)
+	}
+	top := ch
+
+	type result struct {
+		err  error
+		msgs []string
+	}
+	doRPC := func(kind, tag string) (r result) {
+		opts := []grpc.CallOption{tagOpt{tag: tag}}
+		req := wrapperspb.String("req")
+		if kind == "unary" {
+			r.err = top.Invoke(context.Background(), unaryMethod, req, new(wrapperspb.StringValue), opts...)
+			return
+		}
+		cs, err := top.NewStream(context.Background(), &grpc.StreamDesc{StreamName: "S", ClientStreams: true, ServerStreams: true}, streamMethod, opts...)
+		if err != nil {
+			r.err = err
+			return
+		}
+		if _, fake := cs.(*fakeCS); fake || cs == nil {
+			return
+		}
+		if e := cs.SendMsg(req); e != nil && e != io.EOF {
+			r.err = fmt.Errorf("SendMsg: %w", e)
+			return
+		}
+		cs.CloseSend()
+		for k := 0; k < 5; k++ {
+			var out wrapperspb.StringValue
+			if e := cs.RecvMsg(&out); e != nil {
+				if e != io.EOF {
+					r.err = e
+				}
+				return
+			}
+			r.msgs = append(r.msgs, out.Value)
+		}
+		return
+	}
+	var r2 result
+	g.onFirst = func() { r2 = doRPC(re.K2, "rpc2") }
+	g.armed = true
+	r1 := doRPC(re.K1, "rpc1")
+	es := l.take()
+	if g.fired {
+		reentries++
+	}
+
+	// expected interceptor layers per RPC, outermost first
+	expectLayers := func(kind string) []int {
+		var out []int
+		for i := re.Inner + re.Above; i >= 1; i-- {
+			b := bPass
+			if i > re.Inner {
+				b = re.Cfg.U
+				if kind == "stream" {
+					b = re.Cfg.S
+				}
+			}
+			if b != bNil {
+				out = append(out, i)
+			}
+		}
+		return out
+	}
+	perRPC := map[string][]int{}
+	bases := 0
+	var ccs []string
+	for _, e := range es {
+		if e.layer == 0 {
+			bases++
+			continue
+		}
+		tag := "?"
+		for _, o := range e.opts {
+			if t, ok := o.(tagOpt); ok {
+				tag = t.tag
+			}
+		}
+		perRPC[tag] = append(perRPC[tag], e.layer)
+		ccs = append(ccs, fmt.Sprintf("%s/L%d:%s", tag, e.layer, ccName(e.cc)))
+		if e.cc != wantCC {
+			add("cc", fmt.Sprintf("%s|%s|got=%s", tag, e.kind, ccName(e.cc)),
+				fmt.Sprintf("%s interceptor of layer %d was given cc = %s for %s, expected %s (the chain is: %d layer(s), a third-party WrappedClientConn, %d layer(s), base %s; %s was issued from inside the wrapper's first Unwrap())",
+					e.kind, e.layer, ccName(e.cc), tag, ccName(wantCC), re.Above, re.Inner, c.Base, "rpc2"))
+		}
+	}
+	issued := map[string]string{"rpc1": re.K1}
+	if g.fired {
+		issued["rpc2"] = re.K2
+	}
+	for _, tag := range []string{"rpc1", "rpc2"} {
+		kind, ok := issued[tag]
+		if !ok {
+			continue
+		}
+		if cl := classifyLog(perRPC[tag], expectLayers(kind)); cl != "" {
+			add(cl, tag+"|"+kind, fmt.Sprintf("%s (%s): interceptor layers %v, expected %v", tag, kind, perRPC[tag], expectLayers(kind)))
+		}
+	}
+	if bases != len(issued) {
+		add("base-calls", "", fmt.Sprintf("%d RPC(s) issued, the base was reached %d time(s)", len(issued), bases))
+	}
+	if r1.err != nil || (g.fired && r2.err != nil) {
+		add("caller-result", "", fmt.Sprintf("rpc1 err=%v, rpc2 err=%v", r1.err, r2.err))
+	}
+	observed = fmt.Sprintf("Unwrap() calls on the third-party wrapper=%d re-entered=%v layers per rpc=%v base reached=%d cc=%s rpc1.err=%v rpc2.err=%v", g.unwraps, g.fired, perRPC, bases, strings.Join(ccs, ","), r1.err, r2.err)
+	if verbose {
+		fmt.Println("  " + observed)
+	}
+	return probs, observed
+}
+
+func enumerateReentrant(fn func(caseT)) {
+	for _, base := range []string{"rec", "grpc", "inproc", "http"} {
+		for inner := 0; inner <= 1; inner++ {
+			for above := 1; above <= 2; above++ {
+				for _, cfg := range []layerCfg{{bPass, bPass}, {bPass, bNil}, {bNil, bPass}} {
+					for _, k1 := range []string{"unary", "stream"} {
+						for _, k2 := range []string{"unary", "stream"} {
+							fn(caseT{Base: base, Re: &reCase{Inner: inner, Above: above, Cfg: cfg, K1: k1, K2: k2}})
+						}
+					}
+				}
+			}
+		}
+	}
+}
+
 // ---------------------------------------------------------------- enumeration
 
 func enumerate(fn func(caseT)) {
@@ -691,7 +955,12 @@ func enumerate(fn func(caseT)) {
 					x /= len(cfgs)
 				}
 				for _, be := range []bool{false, true} {
-					fn(caseT{Base: base, Layers: layers, BaseErr: be})
+					for ctx := 0; ctx <= 2; ctx++ {
+						if ctx == 1 && base != "rec" {
+							continue // a real base answers a dead context itself; not this property's business
+						}
+						fn(caseT{Base: base, Layers: layers, BaseErr: be, Ctx: ctx})
+					}
 				}
 			}
 		}
@@ -699,6 +968,12 @@ func enumerate(fn func(caseT)) {
 }
 
 func fingerprint(c caseT, pr problem) string {
+	if c.Re != nil {
+		return fmt.Sprintf("C17|reentrant|%s|beneath=%d,above=%d,unary=%s,stream=%s|%s>%s|%s|%s", c.Base, c.Re.Inner, c.Re.Above, behNames[c.Re.Cfg.U], behNames[c.Re.Cfg.S], c.Re.K1, c.Re.K2, pr.sub, pr.clause)
+	}
+	if c.Ctx != 0 {
+		pr.sub += fmt.Sprintf("|ctx=%d", c.Ctx)
+	}
 	switch pr.clause {
 	case "cc":
 		return fmt.Sprintf("C17|%s|cc|%s", c.Base, pr.sub)
@@ -742,7 +1017,11 @@ func main() {
 			os.Exit(2)
 		}
 		fmt.Println("replay:", c.String())
-		probs, _ := runCase(c, true)
+		run := runCase
+		if c.Re != nil {
+			run = runReentrant
+		}
+		probs, _ := run(c, true)
 		for _, pr := range probs {
 			fmt.Printf("  %s[%s]: %s\n", pr.clause, pr.sub, pr.what)
 		}
@@ -758,16 +1037,26 @@ func main() {
 	var samples []interface{}
 	suppressedFPs := map[string]bool{}
 	const maxReported = 100
-	enumerate(func(c caseT) {
+	reCases := 0
+	var reSample interface{}
+	visit := func(c caseT) {
 		evals++
-		probs, obs := runCase(c, false)
+		run := runCase
+		if c.Re != nil {
+			run = runReentrant
+			reCases++
+		}
+		probs, obs := run(c, false)
+		if c.Re != nil && c.Base == "grpc" && reSample == nil {
+			reSample = map[string]interface{}{"case": c, "observed": obs}
+		}
 		nonTrivial := false
 		for _, lc := range c.Layers {
 			if lc.U != bNil || lc.S != bNil {
 				nonTrivial = true
 			}
 		}
-		if nonTrivial {
+		if nonTrivial || c.Re != nil {
 			distinct[c.String()] = true
 		}
 		if len(samples) < 8 && len(c.Layers) >= 2 && evals%2089 == 0 {
@@ -781,15 +1070,22 @@ func main() {
 			}
 			rep.Violation(fp, pr.what+"   ["+c.String()+"]", c)
 		}
-	})
+	}
+	enumerate(visit)
+	enumerateReentrant(visit)
+	if reSample != nil {
+		samples = append(samples, reSample)
+	}
 	if n := len(suppressedFPs); n > 0 {
 		fmt.Printf("(%d further distinct fingerprints not reported individually after the first %d)\n", n, maxReported)
 	}
 	os.Exit(rep.Finish("exploration", map[string]interface{}{
 		"evaluations":         evals,
+		"reentrant_cases":     reCases,
+		"reentries_observed":  reentries,
 		"rpc_calls":           2 * evals,
 		"distinct_nontrivial": len(distinct),
-		"rule":                "every configuration of: wrapping depth 0..3 x per layer (unary {nil,pass,short-circuit,append-an-option} x stream {same}) x base {recording stub, real *grpc.ClientConn over bufconn, inprocgrpc.Channel, httpgrpc.Channel over an in-memory RoundTripper} x base outcome {ok,error}; each makes one unary call and one stream creation (real streams are driven to completion). A configuration is non-trivial when at least one layer has an interceptor, i.e. a wrapper object of intercept.go is on the path; distinct by all parameters.",
+		"rule":                "every configuration of: wrapping depth 0..3 x per layer (unary {nil,pass,short-circuit,append-an-option} x stream {same}) x base {recording stub, real *grpc.ClientConn over bufconn, inprocgrpc.Channel, httpgrpc.Channel over an in-memory RoundTripper} x base outcome {ok,error}; each makes one unary call and one stream creation (real streams are driven to completion). The caller's context is live, already cancelled (recording base only), or cancelled by the innermost interceptor reached just before it returns (recording base: both kinds; real bases: unary); the base's error is a NotFound status with one detail and must arrive unchanged (identity on the recording base, code+message+details on the real ones). RE-ENTRANT cases: a third-party WrappedClientConn sits between 0-1 pass/pass layers over the base and 1-2 layers above; its first Unwrap() issues a second RPC through the outermost channel on the same goroutine; every interceptor of both RPCs must be given the right cc and see its RPC exactly once. A configuration is non-trivial when at least one layer has an interceptor, i.e. a wrapper object of intercept.go is on the path; distinct by all parameters.",
 		"samples":             samples,
 		"exhaustive":          true,
 		"suppressed_reports":  len(suppressedFPs),
